@@ -378,23 +378,28 @@ async fn add_response_to_resources(
             return;
         }
 
-        let mut instance_name: Option<String> = Default::default();
-        let instance_information = InstanceInformation::from_records(
-            service_name,
-            resources.iter().inspect(|record| {
-                if instance_name.is_none() {
-                    instance_name = record
-                        .name
-                        .without(service_name)
-                        .map(|sub_domain| sub_domain.to_string());
-                }
-            }),
-        );
-
-        if let Some(instance_information) = instance_information {
-            if channel.send(instance_information).await.is_err() {
-                *on_discovery = None
+        // one report per instance: a response may carry the records of several instances
+        let mut owners: Vec<&Name> = Vec::new();
+        for resource in &resources {
+            if !owners.contains(&&resource.name) {
+                owners.push(&resource.name);
             }
+        }
+
+        let mut closed = false;
+        for owner in owners {
+            if let Some(instance_information) = InstanceInformation::from_records(
+                service_name,
+                resources.iter().filter(|r| &r.name == owner),
+            ) {
+                if channel.send(instance_information).await.is_err() {
+                    closed = true;
+                    break;
+                }
+            }
+        }
+        if closed {
+            *on_discovery = None
         }
 
         for resource in resources {
